@@ -47,7 +47,7 @@ def flags_for(unit):
          "-isystem", "/usr/include/eigen3", "-isystem", "/usr/include/hdf5/serial",
          "-isystem", "/usr/lib/llvm-14/lib/clang/14.0.6/include"]
     if "/xtp/" in unit or unit.startswith(os.path.join(VERIF, "hosts", "xtp")):
-        f += ["-I" + REPO + "/xtp/include", "-I" + GEN + "/xtp", "-I" + VERIF + "/stubs"]
+        f += ["-I" + REPO + "/xtp/include", "-I" + GEN + "/xtp", "-I" + GEN + "/xtp/votca/xtp", "-I" + VERIF + "/stubs"]
     f += ["-I" + os.path.dirname(unit)]
     return f
 
